@@ -17,6 +17,7 @@ def resJ : Res → Json
   | .ret v => jArr [jStr "ret", jNat v]
   | .exc e => jArr [jStr "exc", jNat e]
   | .retNone => jArr [jStr "retNone"]
+  | .handlerError => jArr [jStr "exc", jInt (-1), jStr "AttributeError"]
 
 def runJ (r : Run) : Json := mkObj [("trace", jArr (r.trace.map evJ)), ("res", resJ r.res)]
 
@@ -25,6 +26,7 @@ def handle (c : Json) : Json :=
   let sc := (jA (jF c "script")).map outcOf
   let script : Nat → Outc := fun i => sc[i]?.getD (.ret 999999)
   let attempts := jI (jF c "attempts")
-  mkObj [("model", runJ (retry script attempts)), ("spec", runJ (spec script attempts))]
+  let named := match jF c "named" with | .bool b => b | _ => true
+  mkObj [("model", runJ (retryFor named script attempts)), ("spec", runJ (spec script attempts))]
 
 end PedVerif.Drv.Retry
